@@ -11,8 +11,10 @@ git -C $wt apply $src/$m.diff || { echo "APPLY FAILED"; exit 3; }
 suite=$(/venv/bin/python /verif/tools/baseline_check.py $wt | head -1)
 git -C $wt checkout -q -- . ; git -C $wt clean -fdq
 echo "$prop/$m: demo clean rc=$clean_rc mutated rc=$mut_rc; suite: $suite"
+if [ "${SKIP_TRY:-0}" = 1 ]; then det=0; else
 out=$(cd /verif && tools/try_seed.sh $src/$m.diff "$@" 2>&1); det=$?
 echo "$out" | grep -E "^== |VIOLATION" | head
+fi
 if [ $clean_rc -eq 0 ] && [ $mut_rc -ne 0 ] && echo "$suite" | grep -q "baseline_missing=0"; then
   d=/verif/seeded/$prop-$m; mkdir -p $d
   cp $src/$m.diff $d/patch.diff; cp $src/${m}_demo.py $d/demo.py
